@@ -224,6 +224,11 @@ func c01Tombstones(p *Prog, r *Report) {
 		bad := f.CallNodes(kContentStore, kCFStore)
 		r.Check(len(bad) == 0, "C01.e", kStoreDelete+"#no-content", p.pos(fi.Decl), "Delete writes no content and no content record", "Delete writes a content or a content record: the key would read as existing")
 		sites := f.CallSites(kCoreStore)
+		if len(sites) == 0 {
+			// the version is stored by a helper shared with Set (storeVersion(ctx, key, contentId)): spliced in
+			f = p.FlatInl(fi)
+			sites = f.CallSites(kCoreStore)
+		}
 		fresh := false
 		for _, s := range sites {
 			for _, a := range s.Call.Args {
@@ -235,6 +240,17 @@ func c01Tombstones(p *Prog, r *Report) {
 								if o := objOf(info, v); o != nil {
 									if d := singleDef(info, fi.Decl.Body, o); d != nil {
 										v = ast.Unparen(d)
+									} else {
+										// the parameter of the spliced-in helper: bound to the argument at the call
+										for _, gn := range f.Nodes {
+											if as, ok := gn.Ast.(*ast.AssignStmt); ok && gn.Synth != "" && len(as.Lhs) == len(as.Rhs) {
+												for i, l := range as.Lhs {
+													if objOf(info, l) == o {
+														v = ast.Unparen(as.Rhs[i])
+													}
+												}
+											}
+										}
 									}
 								}
 								if c, ok := v.(*ast.CallExpr); ok && p.callIs(fi.Pkg, c, kGenerate) {
